@@ -83,6 +83,19 @@ POOL = [
     ('dynamic-class-dict', lambda: type('Dyn', (dict,), {'__slots__': ()})(k='item-k'), 'k'),
     ('dynamic-class-list', lambda: type('Dyn', (list,), {'__slots__': ()})(['e0', 'e1']), '1'),
     ('dynamic-class-iterate', lambda: type('Dyn', (list,), {'__slots__': ()})(['e0']), [T]),
+    # T expressions that differ only in the TYPE of an equal argument (1 / 1.0 / True): each keeps its own meaning whatever was evaluated before
+    ('t-index-int', lambda: ['e0', 'e1', 'e2'], T[1]),
+    ('t-index-float', lambda: ['e0', 'e1', 'e2'], T[1.0]),
+    ('t-index-true', lambda: ['e0', 'e1', 'e2'], T[True]),
+    ('t-floordiv-int', lambda: 7, T // 2),
+    ('t-floordiv-float', lambda: 7, T // 2.0),
+    ('t-mul-list-int', lambda: [1], T * 2),
+    ('t-mul-list-float', lambda: [1], T * 2.0),
+    # binary operators whose left operand is a mutable container INSIDE the target: a new object, the target stays as it is
+    ('t-concat-lists-in-target', lambda: {'tags': ['a', 'b'], 'extra': ['x']}, {'all': T['tags'] + T['extra'], 'n': (T['tags'], len)}),
+    ('t-union-sets-in-target', lambda: {'seen': {1}, 'new': {2}}, T['seen'] | T['new']),
+    ('t-repeat-list-in-target', lambda: {'row': [0]}, T['row'] * 3),
+    ('t-concat-list-and-tuple', lambda: {'tags': ['a'], 'extra': ('x',)}, Coalesce(T['tags'] + T['extra'], default='lists and tuples do not add')),
     ('starstar-over-opaque-leaf', lambda: {'d': Opaque(), 'k': [1]}, '**'),
     ('iterate-opaque', lambda: Opaque(), [T]),
     ('iterate-opaque-with-default', lambda: {'o': Opaque()}, Coalesce(('o', [T]), default='not iterable')),
